@@ -43,7 +43,8 @@ DATA_POOL = {
     "k": ["name", "age", "missing", "0"],
     "i": [1, 0, -1, 9],
     "nested": [[[1, 2], [3, [4, 5]]], [[], [0]]],
-    "ts": [0, 1, 86400, 1700000000, "1700000000", "2024-03-05 10:20:30", "March 5, 2024", "not a date", 1.0, True],
+    "ts": [0, 1, 86400, 1700000000, "1700000000", "2024-03-05 10:20:30", "March 5, 2024", "not a date", 1.0, True,
+           "14:30", "9am", "March 2021", "Friday"],     # partial dates: completed from "today" every time they are parsed
     "v": ["V", 0, None],
     "g": ["G"],
     # read from the render context by the context-aware extra filters (currency, money, decimal, unit, datetime, t)
